@@ -676,10 +676,10 @@ class X86Model(object):
         """(size of the ModRM reg operand or None for /digit rows, size of the r/m operand) as the size statements of _dis compute
         them for a row variant (the statements after the operand dicts are built, evaluated with modr[ad] = is_mem; opmode/admode are
         the modes at that point, i.e. after the MMX/SSE register-file selection).  'rejected' when _dis returns None, 'never' at a NEVER site."""
-        from .consteval import _Return, Native
+        from .consteval import _Return, Native, class_obj
         afs = self.afs
         dst, rst = self._size_nodes()
-        me = Obj('self')
+        me = class_obj(self.arch, 'x86_mn', 'self')         # helper methods the size statements call are followed
         me.opmode, me.admode = (opmode or afs.u32), (admode or afs.u32)
         m_ = Obj('m')
         m_.modifs = dict(modifs)
